@@ -28,3 +28,33 @@ CHECKS["C15"] = {
         {"pkg": "internal__common", "run": "TestVF_C15_AttrHash", "rapid": {"quick": 3000, "thorough": 50000}},
     ],
 }
+
+CHECKS["C05"] = {
+    "level": "exploration",
+    "technique": "property-based testing (rapid) with a trapdoor forger: equation-valid signatures for exponents of known class (prime/composite, inside/outside the interval) + single-component alterations; oracle = construction knowledge",
+    "level_text": "Generated message blocks over boundary sizes are signed by the library and by a harness-side signer that knows p'q'; Verify must accept exactly honest, randomised and prime-inside-interval signatures and reject every equation-valid signature with a composite or out-of-interval exponent and every altered signature/block/key/keyshare contribution. Exploration: the input space is unbounded, classes at the interval boundaries are hit by construction.",
+    "level_note": "Trusts math/big (ModInverse, Exp, ProbablyPrime for locating primes next to the interval ends); composites are composite by construction. Unforgeability without the private key is not testable and not claimed.",
+    "rule": ("one case = key (toy Ln=320 / 1024 / 2048) x message block of 1..9 boundary-class entries; evaluations count every Verify verdict "
+             "checked (honest, 1..5 randomisations, ~12 forged exponent classes, keyshare variants, ~15 alterations). Non-trivial: forged "
+             "equation-valid signatures, randomised signatures, alterations, honest blocks with an entry >= Lm bits; distinct by (key, class vector, kind, parameter)."),
+    "assumptions": ["math/big", "harness signer cross-checked against the issuer's A on every case (control)"],
+    "units": [
+        {"pkg": "root", "run": "TestVF_C05", "rapid": {"quick": 60, "thorough": 700},
+         "shards": {"quick": 6, "thorough": 16}, "timeout": {"quick": 400, "thorough": 3000}},
+    ],
+}
+
+CHECKS["C01"] = {
+    "level": "exploration",
+    "technique": "property-based testing (rapid) with an adversarial prover that knows all secrets and the group order (split attack, k*ord response shifts across the range boundary) + single/pairwise field alterations; oracle = ground truth of the signed values",
+    "level_text": "For generated credentials and disclosure sets the harness presents honest proofs, null-deviation controls, every single and sampled pairwise alteration, equation-valid split forgeries and order-shifted responses to ProofD.Verify and ProofList.Verify; after ACCEPT the reported values must equal the signed exponents, indices must not be both disclosed and hidden, responses must be in range; honest, control and in-range-shifted proofs must be accepted. Soundness against arbitrary adversaries is only sampled through these families.",
+    "level_note": "Trusts math/big and the harness's re-statement of the protocol equations (validated on every case by the accepted null-deviation control). Toy keys use Ln=320 instead of 256 so that messages stay below the group order.",
+    "rule": ("one case = key x 1..6 attributes from boundary classes x disclosure set x session kind; evaluations = verdicts judged. "
+             "Non-trivial: honest proofs with a non-empty disclosure set, every alteration, every equation-valid forgery (split, order shift); "
+             "distinct by (key, class vector, disclosure set, family, deviation parameter)."),
+    "assumptions": ["math/big", "control proofs (null deviation) accepted on every case"],
+    "units": [
+        {"pkg": "root", "run": "TestVF_C01", "rapid": {"quick": 250, "thorough": 3000},
+         "shards": {"quick": 8, "thorough": 16}, "timeout": {"quick": 400, "thorough": 3000}},
+    ],
+}
